@@ -198,8 +198,23 @@ def _cases(draw, tier):
         op = draw(st.sampled_from(OPS))
         rv = draw(st.sampled_from(ISA_VERSIONS + [ver]))
         req = f'#require "{req_name} {op} {rv}"'
+    misspelt = None
+    if draw(st.integers(0, 5)) == 0:
+        # the same requirement in a spelling the directive does not have: it must not be waved through if it is unmet
+        body = req[len('#require "'):-1]
+        misspelt = draw(st.sampled_from(['unquoted', 'single-quoted', 'operator-typo', 'operator-missing']))
+        if misspelt == 'unquoted':
+            req = '#require ' + body
+        elif misspelt == 'single-quoted':
+            req = "#require '" + body + "'"
+        elif op is not None and misspelt == 'operator-typo':
+            req = f'#require "{req_name} {dict([("==", "="), (">=", "=>"), ("<=", "=<"), (">", ">>"), ("<", "<<")])[op]} {rv}"'
+        elif op is not None:
+            req = f'#require "{req_name} {rv}"'
+        else:
+            misspelt = None
     case = {'kind': 'require', 'isa': cfg, 'fmt': fmt, 'require': req, 'req_name': req_name, 'op': op, 'req_version': rv,
-            'stem': stem, 'isa_version': ver}
+            'stem': stem, 'isa_version': ver, 'misspelt': misspelt}
     if draw(st.integers(0, 2)) == 0:
         # an earlier, satisfied requirement for the same language must not excuse a later one
         case['first'] = draw(st.sampled_from([f'#require "{name}"', f'#require "{name} >= 0.0.1"', f'#require "{name} == {ver}"']))
@@ -267,8 +282,11 @@ def execute(case, ctx):
             except ValueError:
                 ok = None
         expect = None if ok is None else ('accepted' if ok else 'rejected')
+        if case.get('misspelt') and expect == 'accepted':
+            expect = None       # whether a misspelt but satisfied requirement is an error is not stated
         tag = 'require:' + ('name-mismatch' if case['req_name'] != isa_name else str(case['op'])) + \
-              ('/after-an-earlier-require' if case.get('first') else '') + ('/language-named-after-the-file' if case.get('stem') else '')
+              ('/after-an-earlier-require' if case.get('first') else '') + ('/language-named-after-the-file' if case.get('stem') else '') + \
+              ('/misspelt-' + case['misspelt'] if case.get('misspelt') else '')
     files = {fname: text, 'p.asm': src}
     if kind == 'require':
         files.update(extra_files)
